@@ -34,6 +34,7 @@ EXTRA = [
     ('ground_shared_with', 'D(1, 2); D(2, 3); D(3, 4); D(1, 5);\nC(x) distinct :- D(x, y);\nB(x, n? += 1) distinct :- C(x), D(x, y);\n@Ground(G);\nG(x, m? Max= n) distinct :- B(x, n:);\nP(x, m, n) :- G(x, m:), B(x, n:);\nP2(x, m, n) :- B(x, n:), G(x, m:);\n', ['P', 'P2']),
     ('untyped_lists', 'P(x: 1, l: []);\nQ(Size([]));\nR({a: [null]});\nS(x) :- x in [];\n', ['P', 'Q', 'R', 'S']),
     ('in_as_value', 'P(x, b) :- T(x, l), b == (x in l);\nQ(x) :- T(x, l), !(x in l);\nR(x, if x in l then 1 else 0) :- T(x, l);\nU(x) :- T(x, l), (x in l) || x > 1;\n', ['P', 'Q', 'R', 'U']),
+    ('mixed_record', 'P(x, name: y) :- T(x, y);\nQ(r:) :- P(..r);\nR({x, name: y}) :- T(x, y);\nS(l? List= {x, name: y}) distinct :- T(x, y);\n', ['Q', 'R', 'S']),
     ('order_limit', '@OrderBy(P, "col0 desc", "col1");\n@Limit(P, 2);\nP(x, y) :- T(x, y);\nQ(x) :- P(x, y);\n', ['P', 'Q']),
 ]
 
